@@ -18,8 +18,38 @@
 
 namespace xsimd
 {
+    // forward declaration
+    template <class T_out, class T_in, class A>
+    XSIMD_INLINE batch<T_out, A> bitwise_cast(batch<T_in, A> const& x) noexcept;
+    template <class T, class A>
+    XSIMD_INLINE void transpose(batch<T, A>* matrix_begin, batch<T, A>* matrix_end) noexcept;
+
     namespace kernel
     {
+        namespace detail
+        {
+            // Transposes a matrix of batch<T, A> with the kernel of another element type U of
+            // the same size. The rows are converted by value: accessing them through a
+            // reinterpret_cast'ed batch<U, A>* would break the strict aliasing rule.
+            template <class U, class A, class T>
+            XSIMD_INLINE void transpose_as(batch<T, A>* matrix_begin, batch<T, A>* matrix_end) noexcept
+            {
+                static_assert(sizeof(U) == sizeof(T), "element types of the same size");
+                constexpr std::size_t size = batch<T, A>::size;
+                (void)matrix_end;
+                batch<U, A> rows[size];
+                for (std::size_t i = 0; i < size; ++i)
+                {
+                    rows[i] = ::xsimd::bitwise_cast<U>(matrix_begin[i]);
+                }
+                ::xsimd::transpose(rows, rows + size);
+                for (std::size_t i = 0; i < size; ++i)
+                {
+                    matrix_begin[i] = ::xsimd::bitwise_cast<T>(rows[i]);
+                }
+            }
+        }
+
         // forward declaration
         template <class A, class T, class = typename std::enable_if<std::is_integral<T>::value, void>::type>
         XSIMD_INLINE batch<T, A> abs(batch<T, A> const& self, requires_arch<generic>) noexcept;
